@@ -25,7 +25,10 @@ RULE = ("relayloop: scripted header schedules (gaps, repeats, lower heads, heads
         "(`nonce!block` in the placement): the judge demands every GOOD confirmed event below the persisted cursor, an unconvertible "
         "one may be skipped, never its neighbours; GRACEFUL stops — SIGTERM or SIGINT sent to the child while the log query is being served, "
         "between query and broadcast, while the broadcast is served, during the loop's sleep (two directed schedules + one random iteration "
-        "in ten) — after which the loop does whatever it does, Start returns, and the process is restarted on the same LevelDB; non-trivial = distinct schedule "
+        "in ten) — after which the loop does whatever it does, Start returns, and the process is restarted on the same LevelDB; a STALLED sifnode "
+        "endpoint ('za': the account query of an iteration's submission is accepted and not answered; a loop that waits is answered after "
+        "33 s, a loop that goes on without the answer is killed after its next cursor write) — one directed schedule in BOTH tiers (it runs in "
+        "parallel with the others and sets the quick tier's wall time of about 55-60 s) plus rare random ones; non-trivial = distinct schedule "
         "(every schedule has at least 4 header deliveries that reach the log query)")
 TRUSTED_BASE = [
     "Lean 4.33.0 kernel; axioms propext, Classical.choice, Quot.sound (audited per theorem on every run)",
